@@ -61,9 +61,12 @@ class Loader(yaml.SafeLoader):
             A processed node representing the document.
         """
         node = cast(yaml.Node, super().get_single_node())
-        if node is not None:
-            self.__check_no_cycles(node, set(), set())
-            node = self.__process_node(node, type(self).document_type)
+        if node is None:
+            # an empty document is a null value, and is type checked as one
+            mark = self.get_mark()
+            node = yaml.ScalarNode('tag:yaml.org,2002:null', '', mark, mark)
+        self.__check_no_cycles(node, set(), set())
+        node = self.__process_node(node, type(self).document_type)
         return node
 
     def get_node(self) -> yaml.Node:
